@@ -2,5 +2,5 @@
 # Create (or reset) a scratch copy of /repo's working tree outside /repo and /verif.
 S=${VERIF_SCRATCH:-/var/tmp/verif-scratch}
 mkdir -p "$S"
-rsync -a --delete --exclude .git /repo/ "$S/repo/"
+rsync -a --delete --exclude .git ${REPO_SRC:-/repo}/ "$S/repo/"
 echo "$S/repo"
